@@ -3,9 +3,9 @@ package veriffuzz
 // Native fuzz target for C30 (thorough tier): the exported IS-IS decoder.
 // Oracle: packet.Decode / packet.DecodeL2Hello never panic on any byte string,
 // return exactly one of (PDU, error), the body type follows the PDU type, and
-// whatever was decoded can be serialized again without a panic. When the
-// re-serialized PDU decodes again, that second decode serializes to the same
-// bytes (serialize∘decode is idempotent on bio-rd's own output).
+// whatever was decoded can be serialized again without a panic. When
+// serialize(decode(x)) == x, decoding those bytes again must succeed and
+// serialize to the same bytes.
 
 import (
 	"bytes"
